@@ -1,15 +1,7 @@
 //! property: C08
 //! unit: V-C08-dbscan-loop
 //! tier: quick
-//! fns: linfa_clustering::dbscan::DbscanValidParams::find_neighbors (count and list of unlabelled neighbours), linfa_clustering::dbscan::DbscanValidParams::transform (array form: seed loop, work queue, labelling; partial correctness)
-//@ extract FN from algorithms/linfa-clustering/src/dbscan/algorithm.rs anchor "fn find_neighbors(" body
-//@ rewrite FN "Vec::with_capacity(self.min_points)" => "Vec::<usize>::with_capacity(self.min_points)"
-//@ rewrite FN "let mut count = 0;" => "let mut count: usize = 0; let ghost mut src: Seq<int> = Seq::empty();   /* ghost: which answer of the index each list element came from */"
-//@ rewrite FN "let candidate = observations.row(idx);" => "/* let candidate = observations.row(idx); */"
-//@ rewrite FN "for (_, i) in nn.within_range(candidate.view(), eps).unwrap().into_iter() {" => "let wr = nn.within_range_tok(idx, eps); for t in 0..wr.len() /*INVN*/ { let i = wr[t];   /* for (_, i) in nn.within_range(candidate.view(), eps).unwrap().into_iter() */"
-//@ rewrite FN "/*INVN*/" => "invariant wr@.len() == deg(idx as int), clusters@.len() == nn.n@, idx < nn.n@, wr_ok(wr@, idx as int, nn.n@), count == t, (forall|a: int| 0 <= a < res@.len() ==> (#[trigger] res@[a]) < nn.n@ && nbr(idx as int, res@[a] as int) && clusters@[res@[a] as int] is None), src.len() == res@.len(), (forall|a: int| 0 <= a < res@.len() ==> 0 <= (#[trigger] src[a]) < t && wr@[src[a]] == res@[a]), (forall|a: int, b: int| 0 <= a < b < res@.len() ==> res@[a] != res@[b]), (forall|s: int| 0 <= s < t && clusters@[(#[trigger] wr@[s]) as int] is None && wr@[s] != idx ==> res@.contains(wr@[s])),"
-//@ insert FN after "res.push(i);" : proof { assert(res@[res@.len() - 1] == i); assert forall|s: int| 0 <= s < t + 1 && clusters@[(#[trigger] wr@[s]) as int] is None && wr@[s] != idx implies res@.contains(wr@[s]) by { if s < t { let k = choose|k: int| 0 <= k < old_res.len() && old_res[k] == wr@[s]; assert(res@[k] == wr@[s]); } else { assert(res@[res@.len() - 1] == wr@[s]); } } }
-//@ insert FN before "res.push(i);" : let ghost old_res = res@; proof { assert forall|a: int| 0 <= a < res@.len() implies res@[a] != i by { let s = src[a]; assert(wr@[s] != wr@[t as int]); } src = src.push(t as int); }
+//! fns: linfa_clustering::dbscan::DbscanValidParams::transform (array form: seed loop, work queue, labelling; partial correctness; find_neighbors by its contract, proved in V-C08-find-neighbors)
 //@ extract PRO from algorithms/linfa-clustering/src/dbscan/algorithm.rs anchor "let mut cluster_memberships = Array1::from_elem(observations.nrows(), None);" lines 5 after "fn transform(&self, observations: &ArrayBase<D, Ix2>) -> Array1<Option<usize>> {"
 //@ rewrite PRO "Array1::from_elem(observations.nrows(), None)" => "vec_none(observations.nrows())   /* Array1::from_elem(observations.nrows(), None) */"
 //@ rewrite PRO "let mut current_cluster_id = 0;" => "let mut current_cluster_id: usize = 0;"
@@ -112,17 +104,16 @@ pub open spec fn same_ok(m: Seq<Option<usize>>, n: int, mp: usize) -> bool {
 pub open spec fn sym() -> bool { forall|i: int, j: int| #![trigger nbr(i, j)] nbr(i, j) == nbr(j, i) }
 pub struct DbscanV { pub min_points: usize, pub tolerance: FT }
 impl DbscanV {
-    // ---- find_neighbors, body extracted from /repo on every run: the count is the number of points within the tolerance (the point itself
+    // ---- find_neighbors: its contract only (the body is verified against it in V-C08-find-neighbors): the count is the number of points within the tolerance (the point itself
     // included), the list holds only points within the tolerance that carry no label yet, each once, and every such point other than the query itself ----
+    #[verifier::external_body]
     pub fn find_neighbors(&self, nn: &NnTok, idx: usize, observations: &ObsTok, eps: FT, clusters: &Vec<Option<usize>>) -> (r: (usize, Vec<usize>))
         requires idx < nn.n@, clusters@.len() == nn.n@,
         ensures r.0 == deg(idx as int),
             forall|a: int| 0 <= a < r.1@.len() ==> (#[trigger] r.1@[a]) < nn.n@ && nbr(idx as int, r.1@[a] as int) && clusters@[r.1@[a] as int] is None,
             forall|a: int, b: int| 0 <= a < b < r.1@.len() ==> r.1@[a] != r.1@[b],
             forall|j: int| 0 <= j < nn.n@ && nbr(idx as int, j) && (#[trigger] clusters@[j]) is None && j != idx ==> r.1@.contains(j as usize),
-    {
-/*@FN*/
-    }
+    { unimplemented!() }
     // ---- the seed loop and the work queue of `transform`, extracted from /repo on every run.  The construction of the neighbour index (and the
     // all-noise answer for zero-dimensional input) is dropped: `nn` is a parameter.  PARTIAL correctness: termination of the queue loop is not proved ----
     #[verifier::exec_allows_no_decreases_clause]
